@@ -39,16 +39,33 @@ pub enum Act {
     Sign(u8, usize),
 }
 
+/// Input operands: 0 and 1 differ in everything; 2 = operand 0 with another sequence (same outpoint);
+/// 3 = operand 0 with another vout (same txid).
 fn operand_in(k: u8) -> TxIn {
+    let (t, v, q) = match k {
+        0 => (0u8, 0u8, 0u8),
+        1 => (1, 1, 1),
+        2 => (0, 0, 1),
+        3 => (0, 1, 0),
+        n => (n, n, n),
+    };
     let mut txid = [0u8; 32];
     for (i, b) in txid.iter_mut().enumerate() {
-        *b = (i as u8).wrapping_mul(5).wrapping_add(k.wrapping_mul(37)).wrapping_add(1);
+        *b = (i as u8).wrapping_mul(5).wrapping_add(t.wrapping_mul(37)).wrapping_add(1);
     }
-    TxIn::new(&txid, 0x0100 + k as u32, &Script::from_bytes(&[0x51 + k]).unwrap(), Some(0x01020300 + k as u32))
+    TxIn::new(&txid, 0x0100 + v as u32, &Script::from_bytes(&[0x51 + k]).unwrap(), Some(0x01020300 + q as u32))
 }
 
+/// Output operands: 0 and 1 differ in everything; 2 = operand 0 with another value; 3 = operand 0 with another script.
 fn operand_out(k: u8) -> TxOut {
-    TxOut::new(0x0a0b0c00 + k as u64, &Script::from_bytes(&[0x76, 0xa9, 0x01, k, 0x88, 0xac]).unwrap())
+    let (val, scr) = match k {
+        0 => (0u8, 0u8),
+        1 => (1, 1),
+        2 => (1, 0),
+        3 => (0, 1),
+        n => (n, n),
+    };
+    TxOut::new(0x0a0b0c00 + val as u64, &Script::from_bytes(&[0x76, 0xa9, 0x01, scr, 0x88, 0xac]).unwrap())
 }
 
 fn subscript() -> Script {
@@ -329,7 +346,7 @@ impl Model for TxModel {
 fn model(tier: Tier, suppressed: BTreeSet<String>) -> TxModel {
     TxModel {
         max_n: if tier.is_thorough() { 3 } else { 2 },
-        operands: if tier.is_thorough() { 3 } else { 2 },
+        operands: 4,
         ints: if tier.is_thorough() { vec![1, 2, 0x01020304] } else { vec![1, 2] },
         suppressed,
         observer_transitions: AtomicU64::new(0),
@@ -412,7 +429,7 @@ fn run(ctx: &Ctx) -> Report {
     r.acc.bump("observer_transitions_compared_with_fresh_copy", stats.observers);
     r.acc.bump("unique_states_second_run", again.unique as u64);
     r.acc.sample(0, || json!({"history": [Act::AddIn(0), Act::AddOut(1), Act::Preimage(0x41, 0), Act::SetOut(0, 0), Act::Preimage(0x41, 0)], "note": "example of an explored history: fill all cache slots, replace an output, observe again"}));
-    r.bounds = json!({"max_inputs": if ctx.tier.is_thorough() {3} else {2}, "max_outputs": if ctx.tier.is_thorough() {3} else {2}, "operands": if ctx.tier.is_thorough() {3} else {2}, "observer_flags": OBS_FLAGS.iter().map(|f| format!("0x{:02x}", f)).collect::<Vec<_>>(), "search": "fixpoint (all reachable states)", "history_length": "unbounded within the finite graph"});
+    r.bounds = json!({"max_inputs": if ctx.tier.is_thorough() {3} else {2}, "max_outputs": if ctx.tier.is_thorough() {3} else {2}, "operands": "4 inputs (two unrelated, one differing only in sequence, one only in vout) and 4 outputs (two unrelated, one differing only in value, one only in script)", "observer_flags": OBS_FLAGS.iter().map(|f| format!("0x{:02x}", f)).collect::<Vec<_>>(), "search": "fixpoint (all reachable states)", "history_length": "unbounded within the finite graph"});
     r.spaces.push(json!({"space": "reachable-graph", "unique_states": stats.unique, "generated_states": stats.generated, "max_depth": stats.depth, "complete": true}));
     r
 }
